@@ -13,6 +13,12 @@ PROPS = {
          'note': 'Trusted: the transcription of the TM step semantics in gvc/theory.py (reviewed against Sipser; cross-checked by the bounded stand-in against gvc/ref.py), VC generator, z3/cvc5. Termination of the bounded loop is by the range iterator.',
          'technique': 'contract-based deductive verification (VCs from the real Python AST, z3/cvc5) + static effect analysis for frames',
          'assumptions': ['words passed to the TM functions are strings of single-character symbols; max_steps >= 0']},
+ 'C05': {'level': 'proof', 'ready': True,
+         'explanation': 'regexp_accepts_word is verified to return mem(w, L(r)) for every expression tree and word, with termination by the lexicographic measure (nodes of r, length of w) -- the star case needs the non-empty prefix k >= 1 exactly for this measure. regexp_simplify is verified to return an expression with L(result) == L(r), regexp_size(result) <= regexp_size(r) and no more nodes, by structural recursion; regexp_size equals the spec size. L is a homomorphism into an abstract Kleene algebra of languages whose facts (nine identities, take/drop unfoldings of product and star) are Mathlib theorems about Language (lean/GvcTheory/Regexp.lean).',
+         'claim': 'All obligations generated from the current source of the matcher, the simplifier and regexp_size are discharged for every expression tree and word; recursion is checked with decreases clauses.',
+         'note': 'Trusted: VC generator, z3/cvc5; the Kleene-algebra and membership facts about Lang are assumed on the SMT side and justified by the Lean file against Mathlib (matching of the two statements is by review, AX-SYNC); symbols are single characters.',
+         'technique': 'contract-based deductive verification (VCs from the real Python AST, z3/cvc5, recursive contracts with decreases) + Lean/Mathlib justification of the language theory',
+         'assumptions': ['Symbol(a).symbol is a single character (the matcher compares the whole word with it)']},
 }
 for i in range(2, 21):
     PROPS.setdefault('C%02d' % i, {'level': 'other', 'explanation': 'see DESIGN.md', 'assumptions': [], 'claim': 'n/a', 'note': 'n/a', 'technique': 'n/a'})
